@@ -585,6 +585,9 @@ type aggEntry struct {
 func (e *penv) aggSnapshot() map[string]aggEntry {
 	out := map[string]aggEntry{}
 	for h, s := range e.p.state.vaaSignatures {
+		if s == nil {
+			continue // an entry the code under test left empty: it has to cope with that itself
+		}
 		a := aggEntry{Sigs: map[ethcommon.Address]string{}, Submitted: s.submitted, Settled: s.settled, HasVAA: s.ourVAA != nil, GS: -1,
 			RetryCount: s.retryCount, Source: s.source, First: s.firstObserved, Last: s.lastRetry, OurMsg: string(s.ourMsg)}
 		if s.gs != nil {
@@ -602,6 +605,9 @@ func (e *penv) aggSnapshot() map[string]aggEntry {
 // inputs handleCleanup derives ages from. This is the harness's virtual clock.
 func (e *penv) shiftTimes(d time.Duration) {
 	for _, s := range e.p.state.vaaSignatures {
+		if s == nil {
+			continue // an entry the code under test left empty: it has to cope with that itself
+		}
 		s.firstObserved = s.firstObserved.Add(-d)
 		if !s.lastRetry.IsZero() {
 			s.lastRetry = s.lastRetry.Add(-d)
